@@ -1138,4 +1138,122 @@ theorem char_refines {rb : RB} {a : AState} (wf : WF rb) (R : Refines rb a) (cp 
   atCursor_refines wf R (fun r l c => putChar r l c cp) (fun a l c => RBAbs.charAt a l c cp) 1
     (fun l c => charAt_refines wf R l c cp) (fun l c => putChar_aux rb l c cp)
 
+theorem absContent_cell {rb : RB} (wf : WF rb) (L C : Int) (hb : inBuf rb.lines rb.cols L C = true) :
+    ((rb.cell L C).state = .line → absContent rb L C = .line (rb.cell L C).pen (rb.cell L C).lmask) ∧
+    ((rb.cell L C).state ≠ .line → ∀ p m, absContent rb L C ≠ .line p m) := by
+  have hb' := (inBuf_iff _ _ _ _).1 hb
+  rw [absContent_eq, if_pos hb]
+  unfold rowContent cellContent RB.cell
+  constructor
+  · intro h; rw [if_neg (by rw [h]; simp), h]
+  · intro h p m
+    by_cases hc : ((rb.cells L).get C).state = .cont
+    · rw [if_pos hc]
+      have := (wf.rows L hb'.1 hb'.2.1).start_isSTE C hb'.2.2.1 hb'.2.2.2 hc
+      cases hs : ((rb.cells L).get ((rb.cells L).get C).cols).state <;> simp_all [CState.isSTE]
+    · rw [if_neg hc]
+      cases hs : ((rb.cells L).get C).state <;> simp_all
+
+theorem linecell_refines {rb : RB} {a : AState} (wf : WF rb) (R : Refines rb a) (l c : Int) (bits : Nat) :
+    WF (RB.linecell rb l c bits) ∧ Refines (RB.linecell rb l c bits) (RBAbs.linecell a l c bits) := by
+  unfold RB.linecell RBAbs.linecell
+  rw [R.pen]
+  cases hx : xlateAndClip rb l c 1 with
+  | none =>
+    refine ⟨wf, refines_cell wf R l c _ rfl (fun _ _ => rfl) ?_⟩
+    intro L C
+    rw [if_neg]
+    intro x
+    have := xlateAndClip_none hx C
+    rw [← x.1] at this
+    exact this ⟨by omega, by omega, x.2.2.1⟩
+  | some r =>
+    simp only
+    obtain ⟨r1, r2, r3, r4, r5, r6, r7, r8⟩ := xlateAndClip_one wf.clip hx
+    have hb : inBuf rb.lines rb.cols r.line r.col = true := (inBuf_iff _ _ _ _).2 ⟨r4, r5, r6, r7⟩
+    by_cases hm : (rb.cell r.line r.col).maskdepth > -1
+    · rw [if_pos hm]
+      refine ⟨wf, refines_cell wf R l c _ rfl (fun _ _ => rfl) ?_⟩
+      intro L C
+      rw [if_neg]
+      intro x
+      have := (absMasked_false_iff wf hb).1 (by rw [r1, r2, ← x.1, ← x.2.1]; exact x.2.2.2)
+      omega
+    · rw [if_neg hm, r3]
+      have hun : (rb.cell r.line r.col).maskdepth = -1 := by have := wf.maskLB r.line r.col; omega
+      have hcell := absContent_cell wf r.line r.col hb
+      -- the intermediate buffer: the cell is a LINE cell with pen `p'` and mask `m'`
+      have step1 : ∃ (rb1 : RB) (p' : Pen) (m' : Nat),
+          (if (rb.cell r.line r.col).state ≠ .line then
+            (makeSpan rb r.line r.col 1).updCell r.line r.col (fun c => { c with state := .line, cols := 1, pen := rb.pen, lmask := 0 })
+          else if (!Pen.equiv (rb.cell r.line r.col).pen rb.pen) = true then
+            rb.updCell r.line r.col (fun c => { c with pen := rb.pen })
+          else rb) = rb1 ∧
+          WF rb1 ∧ rb1.aux = rb.aux ∧ (∀ L C, (rb1.cell L C).maskdepth = (rb.cell L C).maskdepth) ∧
+          (∀ L C, absContent rb1 L C = if L = r.line ∧ C = r.col then .line p' m' else absContent rb L C) ∧
+          (rb1.cell r.line r.col).state = .line ∧ (rb1.cell r.line r.col).cols = 1 ∧
+          (rb1.cell r.line r.col).pen = p' ∧ (rb1.cell r.line r.col).lmask = m' ∧
+          mergeLine rb.pen bits (absContent rb r.line r.col) = .line p' (m' ||| bits) := by
+        by_cases hst : (rb.cell r.line r.col).state ≠ .line
+        · rw [if_pos hst]
+          obtain ⟨w, haux, hmd, hc, hcl⟩ := cellOp_spec wf r.line r.col r4 r5 r6 r7 hun
+            (fun c => { c with state := .line, cols := 1, pen := rb.pen, lmask := 0 }) (fun _ => by simp) (fun _ _ => rfl) (fun _ => rfl)
+          refine ⟨_, rb.pen, 0, rfl, w, haux, hmd, hc, by rw [hcl], by rw [hcl], by rw [hcl], by rw [hcl], ?_⟩
+          have := hcell.2 hst
+          unfold mergeLine
+          cases hh : absContent rb r.line r.col with
+          | line p m => exact absurd hh (this p m)
+          | skip => simp
+          | text _ _ _ => simp
+          | erase _ => simp
+          | char _ _ => simp
+        · have hst' : (rb.cell r.line r.col).state = .line := by
+            apply Classical.byContradiction; intro x; exact hst x
+          rw [if_neg hst]
+          have hone := (wf.rows r.line r4 r5).one r.col r6 r7 (Or.inl hst')
+          have hold := hcell.1 hst'
+          by_cases heq : (!Pen.equiv (rb.cell r.line r.col).pen rb.pen) = true
+          · rw [if_pos heq]
+            obtain ⟨w, haux, hmd, hc⟩ := updAttr_spec wf r.line r.col r4 r5 r6 r7 (by rw [hst']; simp) hone
+              (fun c => { c with pen := rb.pen }) (fun _ => rfl) (fun _ => rfl) (fun _ => rfl)
+            have hcl := updCell_cell rb r.line r.col (fun c => { c with pen := rb.pen })
+            refine ⟨_, rb.pen, (rb.cell r.line r.col).lmask, rfl, w, haux, hmd, ?_, by rw [hcl]; exact hst',
+              by rw [hcl]; exact hone, by rw [hcl], by rw [hcl], ?_⟩
+            · intro L C; rw [hc]
+              split
+              · show cellContent _ 0 = _
+                unfold cellContent; simp only [hst']
+              · rfl
+            · rw [hold]; unfold mergeLine
+              simp only [Bool.not_eq_true'] at heq
+              simp [heq]
+          · rw [if_neg heq]
+            refine ⟨rb, (rb.cell r.line r.col).pen, (rb.cell r.line r.col).lmask, rfl, wf, rfl, fun _ _ => rfl, ?_, hst', hone, rfl, rfl, ?_⟩
+            · intro L C
+              by_cases p : L = r.line ∧ C = r.col
+              · rw [if_pos p, p.1, p.2]; exact hold
+              · rw [if_neg p]
+            · rw [hold]; unfold mergeLine
+              simp only [Bool.not_eq_true', Bool.not_eq_false] at heq
+              simp [heq]
+      obtain ⟨rb1, p', m', e1, w1, aux1, md1, c1, s1, s2, s3, s4, hmerge⟩ := step1
+      rw [e1]
+      have e1l : rb1.lines = rb.lines := congrArg Aux.lines aux1
+      have e1c : rb1.cols = rb.cols := congrArg Aux.cols aux1
+      obtain ⟨w2, aux2, md2, c2⟩ := updAttr_spec w1 r.line r.col r4 (by omega) r6 (by omega) (by rw [s1]; simp) s2
+        (fun c => { c with lmask := c.lmask ||| bits }) (fun _ => rfl) (fun _ => rfl) (fun _ => rfl)
+      refine ⟨w2, refines_cell wf R l c _ (aux2.trans aux1) (fun L C => (md2 L C).trans (md1 L C)) ?_⟩
+      intro L C
+      rw [c2, c1]
+      by_cases p : L = r.line ∧ C = r.col
+      · rw [if_pos p, if_pos]
+        · show cellContent _ 0 = _
+          rw [p.1, p.2, hmerge]
+          unfold cellContent
+          simp only [s1, s3, s4]
+        · refine ⟨by omega, by omega, by rw [p.1, p.2]; exact r8, ?_⟩
+          rw [p.1, p.2]; exact (absMasked_false_iff wf hb).2 hun
+      · rw [if_neg p, if_neg p, if_neg]
+        intro x; exact p ⟨by omega, by omega⟩
+
 end Tickit.RB
